@@ -157,6 +157,24 @@ notes_strength = {
  "agent7-C15": "strengthened: missed at first; every fault kind once more in a file that begins with blank lines and in an included file that begins with blank lines (the error names the line counted in its file)",
  "agent7-C16": "caught as the check stood (sizes of 2^32 and more)",
  "agent7-C17": "strengthened: missed at first; the pool holds programs that define one name several times in different spellings (macro redefined in another letter case, under .ifdef, three times; .set/.def/#define in several spellings)",
+ "agent9-C01": "strengthened before it was confirmed: one number in twelve of the instruction sweep is written as the character literal with that code (controls, blanks and Latin-1 included)",
+ "agent9-C02": "strengthened: missed at first; on a third of the excursions the other segment gets an origin as well and is left again at once, so that two origins of different segments wait for their first item at the same time",
+ "agent9-C03": "strengthened: branch targets named like a #define that was ended again by #undef / .undef in the same or another letter case: the build fails, or the branch reaches the label - never the 0 of the #define",
+ "agent9-C04": "strengthened: missed at first; seven instructions each used twice with one symbol that is in range at the first use and out of range at the second (reads pc directly, through one or two other .equ symbols, through one defined later, inside a function; or a .set assigned again): must fail",
+ "agent9-C05": "caught as the check stood (functions over the boundary grid: exp2(2^32))",
+ "agent9-C06": "strengthened before it was confirmed: the data-in-.dseg fault also as directives that hold nothing (`.db \"\"`, `.db \"\", \"\"`, bare `.db` / `.dw` / `.dd` / `.dq`, with and without a label)",
+ "agent9-C07": "caught as the check stood (alternating writers on one path) and by the new shrinking-rewrites leg (one path rewritten 12 times with images that shrink and grow)",
+ "agent9-C08": "caught as the check stood (optional parameters in unselected branches, added after round 5)",
+ "agent9-C09": "caught by props/variants.rs (program as a file without a final line end)",
+ "agent9-C10": "caught as the check stood (duplicate of a data / EEPROM label in the code segment)",
+ "agent9-C11": "strengthened before it was confirmed: four fixed trees with a file that is included again while its first inclusion is still open (itself two and three times, once and again from the main file, through another file), ended by conditions on symbols",
+ "agent9-C12": "strengthened: missed at first; second selections where both come out of macro expansions (one selector macro called twice, nested board macros, same part twice), first or second through a macro, in two taken branches",
+ "agent9-C13": "strengthened: missed at first; every forbidden form that has an allowed sibling of the same mnemonic also out of a macro whose body line is the mnemonic with its operands as parameters, after 1-3 calls with the sibling's operands",
+ "agent9-C14": "caught as the check stood (radix respelling of .equ values)",
+ "agent9-C15": "strengthened before it was confirmed: six fault kinds also with names of a thousand and more characters",
+ "agent9-C16": "strengthened: missed at first (the argument of the first version of the case did not parse); macro body lines that grow past 64 KiB and hold 2-, 3- and 4-byte characters at six alignments",
+ "agent9-C17": "caught as the check stood (.set in several spellings, added after round 7)",
+ "agent9-C18": "strengthened before it was confirmed: the tool under a file size limit (signal ignored) with images of 80 KB to 1 MiB: a write that stops half way is a failure, never status 0 with a truncated file",
  "agent8-C01": "strengthened: last-word slice - every form in the last one or two words of the flash of the smallest and the largest part that has it",
  "agent8-C02": "strengthened: missed at first; a device-less program that has one gap of more than 64 Ki words often gets a second and a third, sized after the image that exists already (its length, half of it, one and a half times it)",
  "agent8-C03": "strengthened: missed at first; targets written as sums and products of literals that do not fit 64 bits but would lie next to the instruction modulo 2^64 - on the line, through .equ (before and behind the use), through .set, as macro argument, as offset to pc (must fail)",
